@@ -125,6 +125,44 @@ def owner_type(ty, handles, cbs):
     return any(c in ty for c in cbs)
 
 
+def crate_closure_only(facts, uc, b, t):
+    """the "user" call is `f(..)` on a closure parameter of a private function, and every caller in the crate hands over a closure written in
+    the crate that itself runs no user code (`bytes.consume_with(|vtable| vtable.into_mut)`): nobody outside the crate can put code there"""
+    from .inline import callers_of
+    from .flow import ExprBuilder, canon
+    fn = callee(t)
+    if fn is None or fn["name"] not in ("call_once", "call_mut", "call") or str(b.vis) == "Public" or b.kind not in ("fn", "assoc_fn"):
+        return False
+    if facts.trait_item_of(b) or (facts.impl_of(b) or {}).get("trait"):
+        return False
+    eb = ExprBuilder(b, facts, inline=False)
+    bi = [i for i, blk in enumerate(b.blocks) if blk["term"] is t]
+    if not bi or not t["args"]:
+        return False
+    r = canon(eb.operand(t["args"][0], (bi[0], len(b.blocks[bi[0]]["stmts"]))))
+    while isinstance(r, tuple) and r and r[0] in ("ref", "deref"):
+        r = r[1]
+    if not (isinstance(r, tuple) and r and r[0] == "param"):
+        return False
+    k = r[1]
+    cs = [c for c in callers_of(facts, b.did) if not facts.is_test(c)]
+    if not cs:
+        return False
+    for cb in cs:
+        ebc = ExprBuilder(cb, facts, inline=False)
+        for cbi, ct in cb.calls():
+            cfn = callee(ct)
+            if cfn is None or ((cfn.get("res") or {}).get("did") != b.did) or k - 1 >= len(ct["args"]):
+                continue
+            a = canon(ebc.operand(ct["args"][k - 1], (cbi, len(cb.blocks[cbi]["stmts"]))))
+            if not (isinstance(a, tuple) and a and a[0] == "closure"):
+                return False
+            clb = facts.by_did.get(a[1])
+            if clb is None or uc.generic_user.get(clb.did) or any(uc.may_user(clb, blk["term"]) for blk in clb.blocks if blk["term"]["k"] == "call" and not blk["cleanup"]):
+                return False
+    return True
+
+
 def run(facts):
     res = Result("A14", "no call that may run user code is reachable from a point where the destructor of a storage owner was suppressed (ManuallyDrop / forget)")
     handles = roles.handle_types(facts)
@@ -155,6 +193,8 @@ def run(facts):
                 if tt["k"] != "call":
                     continue
                 why = uc.may_user(b, tt)
+                if why and crate_closure_only(facts, uc, b, tt):
+                    why = None
                 if why:
                     bad.append("%s @%s" % (why, b.loc(bj)))
             if bad:
